@@ -13,6 +13,17 @@ impl<S: ShortGroupSignatureScheme> Presentation<S> {
 
         let (signature_statements, predicate_statements) = Self::split_statements(schema);
 
+        // a proof is stored under the id of its statement; the id it carries must be that same id
+        for (id, proof) in &self.proofs {
+            if proof.id() != id {
+                return Err(Error::InvalidPresentationData(format!(
+                    "the proof stored under id '{}' carries the id '{}'",
+                    id,
+                    proof.id()
+                )));
+            }
+        }
+
         let mut verifiers = Vec::<ProofVerifiers<S>>::with_capacity(schema.statements.len());
         for (id, sig_statement) in &signature_statements {
             match (sig_statement, self.proofs.get(*id)) {
